@@ -153,13 +153,13 @@ def eph_multi(maxseq=3, **kw):
 ALL.update(eph_multi=eph_multi)
 
 
-def eph_first(maxseq=3, **kw):
+def eph_first(maxseq=3, slowK=False, **kw):
     """a consumer that lists an ephemeral source BEFORE a synchronized one; the synchronized publisher T has a second consumer"""
     return Topo('EphFirst', {
         'S': dict(nout=1, beh=beh('origin', tseq=[['main']])),
         'T': dict(nout=1, beh=beh('origin', tseq=[['main']])),
         'A': dict(srcs=[src('T')]),
-        'K': dict(srcs=[src('S', eph=1, topics=[('main', 'e')]), src('T')]),
+        'K': dict(srcs=[src('S', eph=1, topics=[('main', 'e')]), src('T')], beh=beh('sink', slow=slowK)),
     }, maxseq=maxseq, **kw)
 
 
